@@ -127,6 +127,7 @@ package cstate
 //@   requires (forall i int :: 0 <= i && i < len(state.NextValidators.Validators) ==> state.NextValidators.Validators[i] != nil) && len(state.NextValidators.Validators) > 0
 //@   requires [previousSaveStoredCurrentSet] forall i int :: 0 <= i && i < len(state.Validators.Validators) ==> kaidb.KeyValueWriter(db).vprio[rawdb.recKey(types.valsKey(state.Validators))][i] == state.Validators.Validators[i].ProposerPriority
 //@   modifies *
+//@   atcall WriteConsensusStateHeight requires [recordPointsAtTheRecordsJustWritten] content(state.ConsensusParamsInfoHash) == content(result(saveConsensusParamsInfo)) && content(state.NextValidatorsInfoHash) == content(result(saveValidatorsInfo)) && height == outer(state).LastBlockHeight
 //@   ensures [nextSetStored] forall i int :: 0 <= i && i < len(state.NextValidators.Validators) ==> kaidb.KeyValueWriter(batch).vprio[rawdb.recKey(types.valsKey(state.NextValidators))][i] == state.NextValidators.Validators[i].ProposerPriority
 //@   ensures [currentSetSurvivesSave] forall i int :: 0 <= i && i < len(state.Validators.Validators) ==> kaidb.KeyValueWriter(batch).vprio[rawdb.recKey(types.valsKey(state.Validators))][i] == state.Validators.Validators[i].ProposerPriority
 
